@@ -1,6 +1,7 @@
 import Parmcb.Model.HeapAlgo
 import Parmcb.Lemmas.HeapSim
 import Parmcb.Lemmas.ApproxAlgo
+import Parmcb.Lemmas.MpiAlgo
 /-!
 The entry points with the literal 4-ary heaps (`Model/HeapAlgo.lean`) are instances of the oracle models: every search on
 the real heaps is a search of the oracle model under some admissible oracle (`Lemmas/HeapSim.lean`), so the end-to-end
@@ -374,5 +375,100 @@ theorem mcbSignedTbbH_correct (g : Graph) (hs : g.simpleB = true) (hp : g.positi
   exact SignedAlgoL.mcb_correct_of_core g hs hp order ho .signedTbb _ hp0 _
     (fun k S hS hSm hex => signedPhaseSearchTbbH_ok _ _ hd.simple hd.positive S hS hSm
       (σ k S) (hσ k S) hex (scheds k S) (hcov k S))
+
+end Parmcb
+
+namespace Parmcb
+open Parmcb.C01 Parmcb.C02
+
+namespace HeapAlgoL
+open SignedAlgoL
+
+theorem rtree_eval_congr {C : Type} (loc loc' : Nat → Cyc C) (t : RTree)
+    (h : ∀ r ∈ t.leaves, loc r = loc' r) : t.eval loc = t.eval loc' := by
+  induction t with
+  | leaf r => exact h r (by simp [RTree.leaves])
+  | node l r ihl ihr =>
+    simp only [RTree.eval]
+    rw [ihl (fun q hq => h q (by simp only [RTree.leaves, List.mem_append]; exact Or.inl hq)),
+      ihr (fun q hq => h q (by simp only [RTree.leaves, List.mem_append]; exact Or.inr hq))]
+
+theorem mpiPhase_congr {C : Type} (f f' : Nat → Option Int → Cyc C) (total : Nat)
+    (h : ∀ i L, i < total → f i L = f' i L) (P : Nat) (scheds : Nat → Sched)
+    (hcov : SlicesCovered total P scheds) (t : RTree) (ht : TreeOK P t) :
+    mpiPhase f scheds t = mpiPhase f' scheds t := by
+  unfold mpiPhase
+  apply rtree_eval_congr
+  intro r hr
+  have hrP := (MpiAlgoL.mem_leaves ht r).1 hr
+  have hb := slice_bounds total P r
+  exact reduceMin_congr f f' _ _ (fun i L _ h2 => h i L (by omega)) (hcov r hrP)
+
+theorem hiddenIndexTbbH_eq (g : Graph) (ord : List Nat) (hs : g.simpleB = true) (hp : g.positiveB = true)
+    (S σ : List Nat) (hnd : σ.Nodup) (hσm : ∀ e ∈ σ, e < g.m) (i : Nat) (L : Option Int) (hi : i < σ.length) :
+    hiddenIndexTbbH g ord S σ i L = hiddenIndexTbb g ord (pkH g ord S σ) S σ i L := by
+  unfold hiddenIndexTbbH hiddenIndexTbb
+  rw [List.getElem?_eq_getElem hi]
+  simp only
+  have hf := simpleB_facts g hs σ[i] (hσm _ (List.getElem_mem hi))
+  unfold hiddenSearch pkH
+  rw [hnd.idxOf_getElem i hi]
+  rw [pickFor_spec g ord hs hp S (σ.drop i) _ true _ true L hf.1 hf.2.1]
+
+theorem mpiH_general (g : Graph) (ord : List Nat) (hs : g.simpleB = true) (hp : g.positiveB = true)
+    (S : List Nat) (hS : StrictSorted S) (hSm : ∀ e ∈ S, e < g.m)
+    (hex : ∃ Z, EvenSet g Z ∧ dotPar Z S = true) (P : Nat) (hP : 1 ≤ P)
+    (scheds : Nat → Sched) (hcov : SlicesCovered (if S.length < g.n then S.length else g.n) P scheds)
+    (t : RTree) (ht : TreeOK P t) :
+    PhaseFound g S (if S.length < g.n then mpiPhase (hiddenIndexTbbH g ord S S) scheds t
+      else mpiPhase (fun v L => searchSignedH g ord S [] v true v false L) scheds t) := by
+  by_cases hn : S.length < g.n
+  · have h := MpiAlgoL.mpi_general g ord hs hp (pkH g ord S S) (fun i L => pickFor_ok _ _ _ _ _ _ _ _ _)
+      S hS hSm hex P hP scheds hcov t ht
+    rw [if_pos hn] at h hcov ⊢
+    rw [mpiPhase_congr _ _ S.length
+      (fun i L hi => hiddenIndexTbbH_eq g ord hs hp S S hS.nodup hSm i L hi) P scheds hcov t ht]
+    exact h
+  · have h := MpiAlgoL.mpi_general g ord hs hp (pkA g ord S) (fun i L => pickFor_ok _ _ _ _ _ _ _ _ _)
+      S hS hSm hex P hP scheds hcov t ht
+    rw [if_neg hn] at h hcov ⊢
+    rw [mpiPhase_congr _ (fun v L => searchSigned g ord (pkA g ord S v L) S [] v true v false L) g.n
+      (fun v L hv => pickFor_spec g ord hs hp S [] v true v false L hv hv) P scheds hcov t ht]
+    exact h
+
+end HeapAlgoL
+
+/-- one phase of `mcb_sva_signed_mpi` on literal heaps, every rank count, every per-rank schedule, every reduction tree -/
+theorem signedPhaseSearchMpiH_ok (g : Graph) (ord : List Nat) (hs : g.simpleB = true) (hp : g.positiveB = true)
+    (S : List Nat) (hS : StrictSorted S) (hSm : ∀ e ∈ S, e < g.m)
+    (hex : ∃ Z, EvenSet g Z ∧ dotPar Z S = true) (P : Nat) (hP : 1 ≤ P)
+    (scheds : Nat → Sched) (hcov : SlicesCovered (if S.length < g.n then S.length else g.n) P scheds)
+    (t : RTree) (ht : TreeOK P t) :
+    SignedAlgoL.PhaseFound g S (signedPhaseSearchMpiH g ord S scheds t) := by
+  open HeapAlgoL in
+  match S, hS, hSm, hex, hcov with
+  | [], hS, hSm, hex, hcov => exact mpiH_general g ord hs hp [] hS hSm hex P hP scheds hcov t ht
+  | [e], hS, hSm, hex, hcov =>
+    have h := signedPhaseSearchMpi_ok g ord hs hp (pkS g ord) (fun i L => pickFor_ok _ _ _ _ _ _ _ _ _)
+      [e] hS hSm hex P hP scheds hcov t ht
+    show SignedAlgoL.PhaseFound g [e] (singleEdgeTbbH g ord e)
+    rw [singleEdgeTbbH_eq g ord hs hp e (hSm e List.mem_cons_self)]
+    exact h
+  | a :: b :: rest, hS, hSm, hex, hcov =>
+    exact mpiH_general g ord hs hp (a :: b :: rest) hS hSm hex P hP scheds hcov t ht
+
+/-- **`mcb_sva_signed_mpi` with the real heaps, end to end** -/
+theorem mcbSignedMpiH_correct (g : Graph) (hs : g.simpleB = true) (hp : g.positiveB = true)
+    (order : List Nat) (ho : order.Perm (List.range g.n))
+    (P : Nat) (hP : 1 ≤ P) (perm : List Nat) (hperm : perm.Perm (List.range (createIndex g order).dim))
+    (scheds : Nat → List Nat → Nat → Sched)
+    (hcov : ∀ k S, SlicesCovered (if S.length < g.n then S.length else g.n) P (scheds k S))
+    (trees : Nat → List Nat → RTree) (ht : ∀ k S, TreeOK P (trees k S)) :
+    McbCorrect g order (mcbSignedMpiH g order perm scheds trees) := by
+  have hd := C16.c16_exact_domain g order hs hp ho
+  have hp0 : (perm.map fun i => [i]).Perm (unitSupports (createIndex g order).dim) := hperm.map _
+  exact SignedAlgoL.mcb_correct_of_core g hs hp order ho .mpi _ hp0 _
+    (fun k S hS hSm hex => signedPhaseSearchMpiH_ok _ _ hd.simple hd.positive S hS hSm
+      hex P hP (scheds k S) (hcov k S) (trees k S) (ht k S))
 
 end Parmcb
